@@ -141,6 +141,16 @@ Definition step (c : conn) (x : ev * Z) : conn := apply_ev (advance c (snd x)) (
 Definition run (c : conn) (evs : list (ev * Z)) (horizon : Z) : conn :=
   advance (fold_left step evs c) horizon.
 
+(* how many of the client's own pings the relay answers with a pong: every one that finds the
+   connection open (gorilla's default ping handler replies from readPump, whatever the client's scopes) *)
+Fixpoint pongs_owed (c : conn) (evs : list (ev * Z)) : Z :=
+  match evs with
+  | [] => 0
+  | (e, tau) :: r =>
+      (match e, status (advance c tau) with EClientPing, Open => 1 | _, _ => 0 end)
+      + pongs_owed (step c (e, tau)) r
+  end.
+
 Definition benign (e : ev) : bool :=
   match e with EClientClose | ENetLoss | EEvict | EDeny => false | _ => true end.
 
